@@ -373,7 +373,7 @@ def jobs(tier):
     js.append(Job("packetfifo_d4_p2", build_pfifo, dict(depth=4, param_depth=2, buffered=False, K=K), cost=10))
     js.append(Job("packetfifo_d2_pNone_buffered", build_pfifo, dict(depth=2, param_depth=None, buffered=True, K=K), cost=10))
     if T:
-        js.append(Job("packetfifo_d4_p2_buffered", build_pfifo, dict(depth=4, param_depth=2, buffered=True, K=K), cost=20))
+        js.append(Job("packetfifo_d2_p2_buffered", build_pfifo, dict(depth=2, param_depth=2, buffered=True, K=16), cost=20))
     js.append(Job("packet_arbiter_2", build_arb, dict(n=2, K=K), cost=5))
     js.append(Job("packet_dispatcher_2", build_disp, dict(n=2, one_hot=False, K=K), cost=5))
     js.append(Job("packet_dispatcher_3", build_disp, dict(n=3, one_hot=False, K=K), cost=5))
